@@ -302,9 +302,9 @@ Qed.
 Section Rnd.
 Variable rnd : Z -> hist -> Z -> Z -> Z.
 Lemma trand_complete (d : pat -> trace) l z K : (forall q, In q l -> complete (d q)) -> complete K ->
-  forall count r idx, (r < count)%nat -> complete (trand rnd d l z (Some r) idx count K).
+  forall a b count r idx, (r < count)%nat -> complete (trand rnd d a b l z (Some r) idx count K).
 Proof.
-  intros Hd HK. induction count as [|c IH]; intros r idx H; [lia|]. cbn [trand].
+  intros Hd HK a b. induction count as [|c IH]; intros r idx H; [lia|]. cbn [trand].
   destruct r as [|r]; cbn [cnt_zero]. exact HK.
   unfold rand_item. destruct ((0 <=? _)%Z && _); auto with cpl.
   destruct (nth_error l _) eqn:E; auto with cpl.
